@@ -13,8 +13,27 @@ def open_case(spec):
     with warnings.catch_warnings():
         warnings.simplefilter("ignore")
         ds = specs.build(spec)
+        before = snapshot(ds)
         conv = specs.bind_convention(spec, ds)
+    _OPENED.append((ds, before, f"{spec['conv']} dataset (warm-up {spec.get('warmup') or []})"))
     return ds, conv
+
+
+_OPENED = []
+
+
+def reset_opened():
+    del _OPENED[:]
+
+
+def verify_untouched(ctx):
+    """Called by the runner after a check: the datasets handed out by open_case are unchanged."""
+    for ds, before, what in _OPENED:
+        touched = changed_variables(ds, before)
+        ctx.check(not touched, ctx.prop_id + ".dataset_untouched",
+                  lambda: f"the operations under test changed variables {touched} of the {what} "
+                  f"they were given")
+    reset_opened()
 
 
 def same_number(a, b):
